@@ -79,6 +79,8 @@ def rs_type(t):
         return s
     if k == "ordering":
         return "core::cmp::Ordering"
+    if k == "raw":
+        return t[1]         # verbatim Rust type text (fault injection, `impl Trait` parameters)
     raise ValueError(t)
 
 
